@@ -48,6 +48,11 @@ def scenarios(tier, seed):
                 if m == "AHE" and tol < 1e-6:
                     continue      # second order pair: tens of thousands of steps, beyond the monitor's event budget
                 scs.append(gen.base(m, a, b, 0.2, rtol=tol, atol=tol, problem="steeplate", y0=[1.0], budget=1000000))
+    # the same with an implicit pair: the stage solve fails on the steep part while the error estimate alone would allow a longer step
+    # (the retry must still be shorter than the attempt that failed - finding f24)
+    for m in ["RadauIIA5"] + (["LobattoIIIC4"] if thorough else []):
+        for (a, b) in ((0.0, 1.0), (0.0, -1.0)):
+            scs.append(gen.base(m, a, b, 0.2, rtol=1e-5, atol=1e-5, problem="steeplate", y0=[1.0], budget=1000000))
     # tolerances that cannot be met: the right-hand side is undefined beyond |t| = 1/2
     for m in ["RK45CK", "DOPRI45", "RK87", "RadauIIA5", "AHE"] + (["RK108", "LobattoIIIC4"] if thorough else []):
         for (a, b) in ((0.0, 1.0), (0.25, -1.0)):
